@@ -14,6 +14,7 @@ import (
 	"time"
 
 	"github.com/nautilus/gateway"
+	"github.com/nautilus/graphql"
 	"github.com/vektah/gqlparser/v2"
 	"github.com/vektah/gqlparser/v2/ast"
 	"github.com/vektah/gqlparser/v2/formatter"
@@ -28,7 +29,7 @@ func init() {
 
 const fedHeader = `From Coq Require Import String List ZArith Bool.
 Import ListNotations.
-From GW Require Import Base.Res Base.Json Gql.Syntax Gql.Spec Gql.Guards Gw.Locate Gw.LocateCheck Gw.FedCheck Gw.Points Gw.PointsCheck Gw.Select Gw.Vars Gw.Plan Gw.PlanCheck.
+From GW Require Import Base.Res Base.Json Gql.Syntax Gql.Spec Gql.Guards Gw.Locate Gw.LocateCheck Gw.FedCheck Gw.Points Gw.PointsCheck Gw.Select Gw.Vars Gw.Plan Gw.PlanCheck Gw.Scrub.
 Local Open Scope string_scope.
 Local Open Scope bool_scope.
 `
@@ -291,7 +292,13 @@ func fedKnobs(r *rand.Rand, prop string) qKnobs {
 	}
 	if prop == "C17" {
 		k.MultiOp = 2 + r.Intn(3)
+	} else if prop != "C13" && r.Intn(4) == 0 {
+		k.MultiOp = 2 + r.Intn(2)
 	}
+	if k.MultiOp > 1 {
+		k.ReuseVarNames = r.Intn(2) == 0
+	}
+	k.NullVars = r.Intn(2) == 0
 	return k
 }
 
@@ -394,7 +401,8 @@ func runFed(cfg *runCfg, prop string) error {
 					return k
 				}
 			}
-			obs := fedRun(fed, q.Text, opName, q.Vars)
+			opVals := q.ValsFor(one.OpIndex)
+			obs := fedRun(fed, q.Text, opName, opVals)
 			for _, cl := range obs.Calls {
 				if cl.Fault != "" {
 					nfaults++
@@ -404,7 +412,7 @@ func runFed(cfg *runCfg, prop string) error {
 			c := sh.File()
 			w := c.world(fed)
 			frags := c.Frags(parsed.Fragments)
-			vars := c.vars(q.Vars)
+			vars := c.vars(opVals)
 			varnames := []string{}
 			for _, vd := range op.VariableDefinitions {
 				varnames = append(varnames, vd.Variable)
@@ -435,6 +443,20 @@ func runFed(cfg *runCfg, prop string) error {
 					model += fmt.Sprintf(" && plan_agrees %d %s %s %s [] %s %s %s", 40, c.Strs(cs.Fed.Priorities), c.URLMap(fed.Cap.Locs),
 						c.FieldTypes(fed.Cap.Schema), c.S(root), sels, c.pstep(plans[one.OpIndex].RootStep))
 					doc.Dist["model:plan-compared"]++
+				}
+			}
+			if model != "true" && (prop == "C04" || prop == "C01" || prop == "C17") {
+				// the scrub paths of the plan against the model of generateScrubFields
+				if plans, perr := fed.Plan(q.Text); perr == nil && one.OpIndex < len(plans) {
+					pl := plans[one.OpIndex]
+					if flat, ferr := graphql.ApplyFragments(pl.Operation.SelectionSet, pl.FragmentDefinitions); ferr == nil {
+						paths := []string{}
+						for _, pth := range pl.FieldsToScrub["id"] {
+							paths = append(paths, c.Strs(pth))
+						}
+						model += fmt.Sprintf(" && scrub_fields_agree 40 %s %s [%s]", c.ksels(flat), c.pstep(pl.RootStep), strings.Join(paths, "; "))
+						doc.Dist["model:scrub-compared"]++
+					}
 				}
 			}
 			if prop == "C02" && model != "true" {
@@ -529,9 +551,9 @@ func runFed(cfg *runCfg, prop string) error {
 			case "C17":
 				// the same operation in the document reduced to it and its fragments
 				red := q.OpTexts[one.OpIndex] + "\n" + strings.Join(q.OpFrags[one.OpIndex], "\n")
-				robs := fedRun(fed, red, "", q.Vars)
+				robs := fedRun(fed, red, "", opVals)
 				c.Printf("Definition red%d := %s.\n", id, c.observed(robs, fed))
-				unknown := fedRun(fed, q.Text, "NoSuchOperation", q.Vars)
+				unknown := fedRun(fed, q.Text, "NoSuchOperation", opVals)
 				c.Printf("Definition unk%d := %s.\n", id, c.observed(unknown, fed))
 				oracle = fmt.Sprintf("c17_holds exp%d obs%d red%d && (Nat.leb %d 1 || c17_unknown_name_holds unk%d)", id, id, id, len(parsed.Operations), id)
 				// the same QueryPlanList looked up again and again, as under the plan cache: every
@@ -544,8 +566,8 @@ func runFed(cfg *runCfg, prop string) error {
 					order = append(order, one.OpIndex, 0)
 					pairs := []string{}
 					for _, k := range order {
-						fresh := fedRun(fed, q.Text, q.Ops[k], q.Vars)
-						again := fedRunOn(fed, shared, q.Text, q.Ops[k], q.Vars)
+						fresh := fedRun(fed, q.Text, q.Ops[k], q.ValsFor(k))
+						again := fedRunOn(fed, shared, q.Text, q.Ops[k], q.ValsFor(k))
 						pairs = append(pairs, "("+c.observed(fresh, fed)+", "+c.observed(again, fed)+")")
 					}
 					c.Printf("Definition reuse%d := [%s].\n", id, strings.Join(pairs, "; "))
@@ -613,4 +635,15 @@ func (c *CoqFile) pstep(s *gateway.QueryPlanStep) string {
 		thens = append(thens, c.pstep(t))
 	}
 	return fmt.Sprintf("(PStep %s %s %s %s [%s])", c.S(loc), c.S(s.ParentType), c.Strs(s.InsertionPoint), c.Sels(s.SelectionSet), strings.Join(thens, "; "))
+}
+
+// ksels prints a flattened selection (graphql.ApplyFragments output) as Gw.Scrub.ksel terms
+func (c *CoqFile) ksels(ss ast.SelectionSet) string {
+	parts := []string{}
+	for _, s := range ss {
+		if f, ok := s.(*ast.Field); ok {
+			parts = append(parts, fmt.Sprintf("KS %s %s %s", c.S(f.Alias), c.S(f.Name), c.ksels(f.SelectionSet)))
+		}
+	}
+	return "[" + strings.Join(parts, "; ") + "]"
 }
